@@ -305,6 +305,18 @@ def _verbatim(s, text):
     return False
 
 
+_MAGIC = ((b'\x89PNG\r\n\x1a\n', 'png'), (b'\xff\xd8\xff', 'jpeg'), (b'GIF87a', 'gif'), (b'GIF89a', 'gif'),
+          (b'II*\x00', 'tiff'), (b'MM\x00*', 'tiff'))
+
+
+def _image_magic(body):
+    """the image format the first bytes of a body announce, or None"""
+    for magic, name in _MAGIC:
+        if body.startswith(magic):
+            return name
+    return None
+
+
 _TRACE_RE = re.compile(r'Traceback \(most recent call last\)|File "[^"]+", line \d+')
 
 
@@ -418,6 +430,17 @@ def observe(world, raw, needles, full=None):
     elif base.startswith('text/') or base == 'application/json':
         o['kind'] = 'text' if body else 'empty'
         _find_echo(needles, 'plain', text or '', echo)
+    elif _image_magic(body):
+        # the body is an image and Content-type does not say so (e.g. 'PNG'): still an image response of the spec
+        o['kind'] = 'image'
+        try:
+            im = Image.open(io.BytesIO(body))
+            im.load()
+            o['w'], o['h'] = im.size
+        except Exception as ex:
+            o['problems'].append('image does not decode: %s' % str(ex)[:80])
+        o['problems'].append('Content-type %r of %s image bytes is not an image media type (type/subtype)' % (
+            ctype[:60], _image_magic(body)))
     elif base == 'none':
         o['kind'] = 'other'
         o['problems'].append('body without a Content-type')
@@ -536,6 +559,9 @@ def _path_text(s):
 WMS_VERSIONS = {'v100': '1.0.0', 'v110': '1.1.0', 'v111': '1.1.1', 'v130': '1.3.0', 'low': '0.5.0', 'mid': '1.2.0',
                 'high': '2.0.0'}
 REQ_W, REQ_H = 40, 30
+# format names without 'image/': PNG and JPEG are what WMS 1.0.0 clients send (WMS100MapRequest.validate_format maps the
+# upper-case names of the configured formats to their mime types); png: lower case; GIF: a format the service does not offer
+BARE_FORMATS = {'bare_png': 'PNG', 'bare_jpeg': 'JPEG', 'bare_lower': 'png', 'bare_gif': 'GIF'}
 
 
 class Unknown(Exception):
@@ -606,13 +632,14 @@ def concretise(op, p, st):
                  st.text('version', 'ctrl')])))
         elif ver != 'absent':
             raise Unknown('wms version %r' % ver)
-        rname = {'wms_map': 'map' if v100 else 'GetMap', 'wms_mapx': 'map' if v100 else 'GetMap', 'wms_fi': 'feature_info' if v100 else 'GetFeatureInfo',
+        rname = {'wms_map': 'map' if v100 else 'GetMap', 'wms_mapx': 'map' if v100 else 'GetMap',
+                 'wms_map100': 'map' if v100 else 'GetMap', 'wms_fi': 'feature_info' if v100 else 'GetFeatureInfo',
                  'wms_caps': 'capabilities' if v100 else 'GetCapabilities', 'wms_legend': 'GetLegendGraphic'}
         if op == 'wms_other':
             add('REQUEST', 'request', {})
         else:
             q.append(('REQUEST', rname[op]))
-        if op in ('wms_map', 'wms_mapx', 'wms_fi', 'wms_other'):
+        if op in ('wms_map', 'wms_mapx', 'wms_map100', 'wms_fi', 'wms_other'):
             add('LAYERS', 'layers', {'valid': 'direct', 'multi': ['direct', 'cached'], 'cachedlayer': 'cached'})
             add('STYLES', 'styles', {'valid': '', 'default': 'default'})
             add('CRS' if v130 else 'SRS', 'srs', {'valid': 'EPSG:3857', 'geo': 'EPSG:4326', 'unconfigured': 'EPSG:25832'})
@@ -630,8 +657,8 @@ def concretise(op, p, st):
             if fmt in ('opt_hostile', 'opt_unicode', 'opt_ctrl'):
                 q.append(('FORMAT', 'image/png; ' + st.text('format', fmt[4:])))
             else:
-                add('FORMAT', 'format', {'png': 'image/png', 'jpeg': 'image/jpeg', 'gif': 'image/gif',
-                                         'dup': ['image/png', 'image/jpeg']})
+                add('FORMAT', 'format', dict(BARE_FORMATS, png='image/png', jpeg='image/jpeg', gif='image/gif',
+                                             dup=['image/png', 'image/jpeg']))
             add('EXCEPTIONS', 'exceptions', {'xml': 'application/vnd.ogc.se_xml' if not v130 else 'XML',
                                              'inimage': 'application/vnd.ogc.se_inimage' if not v130 else 'INIMAGE',
                                              'blank': 'application/vnd.ogc.se_blank' if not v130 else 'BLANK',
@@ -649,7 +676,7 @@ def concretise(op, p, st):
             add('TILED', 'tiled', {'true': 'true', 'hostile': st.text('tiled', 'hostile') if g('tiled') == 'hostile' else ''})
         if op == 'wms_legend':
             add('LAYER', 'layer', {'valid': 'direct', 'cachedlayer': 'cached'})
-            add('FORMAT', 'format', {'png': 'image/png', 'jpeg': 'image/jpeg', 'json': 'application/json'})
+            add('FORMAT', 'format', dict(BARE_FORMATS, png='image/png', jpeg='image/jpeg', json='application/json'))
             add('SLD_VERSION', 'sld_version', {'valid': '1.1.0', 'other': '1.0.0'})
             add('SCALE', 'scale', {'valid': '1000'})
             add('EXCEPTIONS', 'exceptions', {'xml': 'XML', 'inimage': 'INIMAGE', 'blank': 'BLANK',
